@@ -67,14 +67,23 @@ def reach (adj : Nat → Nat → Bool) (n : Nat) (i j : Nat) : Bool :=
 def mutualR (adj : Nat → Nat → Bool) (n : Nat) (i j : Nat) : Bool :=
   decide (i < n) && decide (j < n) && reach adj n i j && reach adj n j i
 
-/-- Memoisation of a Boolean relation on the nodes `< n` (it is `false` elsewhere); only there
-    to make the driver fast: `tab_apply` (Lemmas) shows it is the relation itself. -/
-def tab (n : Nat) (f : Nat → Nat → Bool) : Nat → Nat → Bool :=
-  let t := (List.range n).map (fun i => (List.range n).map (fun j => f i j))
-  fun i j =>
-    match t[i]? with
-    | some row => row[j]?.getD false
-    | none => false
+/-- Memoisation of a Boolean relation on the nodes `< n` as a table (only there to make the
+    driver fast). -/
+def mkTab (n : Nat) (f : Nat → Nat → Bool) : List (List Bool) :=
+  (List.range n).map (fun i => (List.range n).map (fun j => f i j))
+
+/-- Table lookup, `false` outside the table; `look_mkTab` (Lemmas) shows that
+    `look (mkTab n f)` is `f` restricted to the nodes `< n`. -/
+def look (t : List (List Bool)) (i j : Nat) : Bool :=
+  match t[i]? with
+  | some row => row[j]?.getD false
+  | none => false
+
+/-- The table of `reach adj n`, one closure computation per row. -/
+def mkReachTab (adj : Nat → Nat → Bool) (n : Nat) : List (List Bool) :=
+  (List.range n).map (fun i =>
+    let r := closureFrom adj n n [i]
+    (List.range n).map (fun j => r.contains j))
 
 /-! ### Strongly connected components and condensation
 (generic in the mutual-reachability relation `mu`) -/
@@ -122,8 +131,10 @@ def sequenceOf (adj mu : Nat → Nat → Bool) (n : Nat) : List (List (List Nat)
 /-- `CouplingStructure(disciplines).sequence`, disciplines named by their position. -/
 def sequence (ds : List Disc) : List (List (List Nat)) :=
   let n := ds.length
-  let adj := tab n (edge ds)
-  sequenceOf adj (tab n (mutualR adj n)) n
+  let ta := mkTab n (edge ds)
+  let adj := look ta
+  let tr := mkReachTab adj n
+  sequenceOf adj (fun i j => look tr i j && look tr j i) n
 
 /-! ### Sorted lists of names (`sorted(set(...))`) -/
 
@@ -201,6 +212,17 @@ def outputCouplings (ds : List Disc) (i : Nat) (couplings : List String) : List 
 /-- `get_input_couplings(discipline, strong)`. -/
 def inputCouplings (ds : List Disc) (i : Nat) (couplings : List String) : List String :=
   sortDedup ((inputsAt ds i).filter (fun v => couplings.contains v))
+
+/-- `DependencyGraph.get_disciplines_couplings()`: the edges with their sorted labels
+    (here in lexicographic order of the pair of positions). -/
+def disciplinesCouplings (ds : List Disc) : List (Nat × Nat × List String) :=
+  (List.range ds.length).flatMap (fun i =>
+    (List.range ds.length).filterMap (fun j =>
+      if edge ds i j then
+        match ds[i]?, ds[j]? with
+        | some a, some b => some (i, j, sortDedup (shared a b))
+        | _, _ => none
+      else none))
 
 /-! ### Data propagation: `MDOChain`, `MDOParallelChain`, `MDAChain` -/
 
